@@ -1460,6 +1460,8 @@ def m_next(eng, args, kwargs, st, node):
     if not (isinstance(o, HInst) and o.cls == 'EnumIter'):
         raise Undecided('next(%r)' % (it,), node)
     seq, pos = o.fields['seq'], o.fields['pos']
+    if not isinstance(seq, VSeq):
+        seq = VSeq(*eng.seq_of(seq, st))        # the iterator as a parameter: its sequence is a list object
     out = []
     for r, s in eng._safe_result(Lt(pos.t, Len(seq.t)), NONE, StopIteration, st, node):
         if isinstance(r, Raised):
